@@ -386,10 +386,40 @@ class World:
                 j += 1
         return False
 
+    def cb_cancel(self, k):
+        """Cancel the future the k-th still-blocked slow callback awaits: a CancelledError escapes that callback."""
+        j = 0
+        for s in self.slow:
+            if not s[2].done():
+                if j == k:
+                    s[2].cancel()
+                    return True
+                j += 1
+        return False
+
     # ------------------------------------------------------------------ user code: callbacks
     def callbacks(self, kind, pool_ref, raise_end=(), raise_cancel=()):
-        """kind: 0 none, 1 plain, 2 coroutine, 3 slow (gated) coroutine.
+        """kind: 0 none, 1 plain, 2 coroutine, 3 slow (gated) coroutine, 4 coroutine function produced by a
+        functools.wraps-style adapter around a plain function (its __wrapped__ is not a coroutine function).
         raise_end / raise_cancel: task ids whose callback raises after recording."""
+        if kind == 4:
+            import functools
+            e2, c2 = self.callbacks(2, pool_ref, raise_end, raise_cancel)
+
+            def plain_end(i):
+                raise AssertionError("the wrapped plain function is never what the pool should call")
+
+            def plain_cancel(i):
+                raise AssertionError("the wrapped plain function is never what the pool should call")
+
+            @functools.wraps(plain_end)
+            async def ecb4(i):
+                return await e2(i)
+
+            @functools.wraps(plain_cancel)
+            async def ccb4(i):
+                return await c2(i)
+            return ecb4, ccb4
         w = self
         if kind == 0:
             return None, None
